@@ -933,9 +933,11 @@ theorem build_congr (a b : List Out) (h : expo a = expo b) :
       the ServerHello, provided the key log has the connection's lines), it is still in key generation 0, it carries the
       datagram's Destination Connection ID, packet number in the RFC window, no CRYPTO frames;
     * then `itemsB` — 1-RTT datagrams only (`Send1`: any key updates).
+    `hadj`: CONSECUTIVE data-carrying datagrams differ in (capture microsecond, direction) — the builder merges adjacent
+    frames of equal time and direction.
     Nothing raises, and the export without `-a` is exactly one UDP frame per DATAGRAM whose 1-RTT packet carried STREAM
     data, in capture order, with that data, the datagram's capture time and direction. -/
-theorem quic_connection_exact_interleaved (hl : H.Lawful) (h32 : H.sha256.outLen = 32) (L : SealLaws Pc)
+theorem quic_connection_exact_interleaved_adj (hl : H.Lawful) (h32 : H.sha256.outLen = 32) (L : SealLaws Pc)
     (cr csel ch sh ca sa : Bytes) (early : Option Bytes) (sel : SuiteSel) (hsel : selectSuite csel = some sel)
     (ho : (hashOf H sel.hash).outLen < 65536)
     (hsa : sa.length = (hashOf H sel.hash).outLen) (hca : ca.length = (hashOf H sel.hash).outLen)
@@ -954,7 +956,7 @@ theorem quic_connection_exact_interleaved (hl : H.Lawful) (h32 : H.sha256.outLen
       (chachaOf (trk0.runM (d0 :: itemsA.map (·.2.2))).core) 0 0
       (trk0.runM (d0 :: itemsA.map (·.2.2))).tc.app (trk0.runM (d0 :: itemsA.map (·.2.2))).ts.app
       (trk0.runM (d0 :: itemsA.map (·.2.2))).cc (trk0.runM (d0 :: itemsA.map (·.2.2))).sc (itemsB.map (·.2.2)))
-    (htimes : ((shortsOf (d0 :: itemsA.map (·.2.2)) ++ itemsB.map (·.2.2)).map fun d => (d.x.ts, d.x.srv)).Pairwise (· ≠ ·)) :
+    (hadj : DistinctAdjacent false ((shortsOf (d0 :: itemsA.map (·.2.2)) ++ itemsB.map (·.2.2)).map fun d => inDg d.x)) :
     let QM := quicMachine maskFn H Pc info
     let c1 := mixFeedAll QM c ((kl0, p0, d0) :: itemsA)
     (feedAll QM c1 itemsB).raised = none ∧
@@ -1017,12 +1019,41 @@ theorem quic_connection_exact_interleaved (hl : H.Lawful) (h32 : H.sha256.outLen
     | cons d ds ih =>
       simp only [List.flatMap_cons, List.map_append, List.map_cons, framesOf] at ih ⊢
       rw [ih, inDg_frames]
+  rw [hframes _, build_groups false _ hadj]
+  exact out_tail c _
+
+/-- … under the stronger, simpler hypothesis that ALL datagrams carrying 1-RTT packets differ pairwise in (capture
+    microsecond, direction) -/
+theorem quic_connection_exact_interleaved (hl : H.Lawful) (h32 : H.sha256.outLen = 32) (L : SealLaws Pc)
+    (cr csel ch sh ca sa : Bytes) (early : Option Bytes) (sel : SuiteSel) (hsel : selectSuite csel = some sel)
+    (ho : (hashOf H sel.hash).outLen < 65536)
+    (hsa : sa.length = (hashOf H sel.hash).outLen) (hca : ca.length = (hashOf H sel.hash).outLen)
+    (kl0 : List Keylog.Key) (p0 : MainLoop.Pkt) (d0 : DgM) (itemsA : List (List Keylog.Key × MainLoop.Pkt × DgM))
+    (hkl : ∀ x ∈ (kl0, p0, d0) :: itemsA, KeylogHas x.1 cr ch sh ca sa early)
+    (c : QConn) (hc : Fresh H Pc c) (hd0 : d0.longs ≠ [])
+    (hok : MixDgs maskFn H Pc L d0.dcid sel sh ch sa ca trk0 (d0 :: itemsA.map (·.2.2)))
+    (htr : PTrace cr csel {} (allInsM (d0 :: itemsA.map (·.2.2))))
+    (hcar : ∀ x ∈ (kl0, p0, d0) :: itemsA, CarriesM info c (DgM.wire H Pc L d0.dcid sel sh ch sa ca) x.2.1 x.2.2)
+    (hkeyed : (trk0.runM (d0 :: itemsA.map (·.2.2))).keyed = true)
+    (itemsB : List (List Keylog.Key × MainLoop.Pkt × Dg1))
+    (hcarB : ∀ x ∈ itemsB, Carries info c
+      (wireOf H Pc L sel .v1 (rfcGen (hashOf H sel.hash) sel.keyLen sa ca 0)) x.2.1 x.2.2)
+    (hsend : Send1 maskFn H Pc L sel .v1 (rfcGen (hashOf H sel.hash) sel.keyLen sa ca 0)
+      (quicHp (hashOf H sel.hash) ca sel.keyLen) (quicHp (hashOf H sel.hash) sa sel.keyLen)
+      (chachaOf (trk0.runM (d0 :: itemsA.map (·.2.2))).core) 0 0
+      (trk0.runM (d0 :: itemsA.map (·.2.2))).tc.app (trk0.runM (d0 :: itemsA.map (·.2.2))).ts.app
+      (trk0.runM (d0 :: itemsA.map (·.2.2))).cc (trk0.runM (d0 :: itemsA.map (·.2.2))).sc (itemsB.map (·.2.2)))
+    (htimes : ((shortsOf (d0 :: itemsA.map (·.2.2)) ++ itemsB.map (·.2.2)).map fun d => (d.x.ts, d.x.srv)).Pairwise (· ≠ ·)) :
+    let QM := quicMachine maskFn H Pc info
+    let c1 := mixFeedAll QM c ((kl0, p0, d0) :: itemsA)
+    (feedAll QM c1 itemsB).raised = none ∧
+    QM.out false (feedAll QM c1 itemsB) = expectedOut c (shortsOf (d0 :: itemsA.map (·.2.2)) ++ itemsB.map (·.2.2)) := by
   have hdist : DistinctKeys ((shortsOf (d0 :: itemsA.map (·.2.2)) ++ itemsB.map (·.2.2)).map fun d => inDg d.x) := by
     unfold DistinctKeys
     rw [List.map_map]
     exact htimes
-  rw [hframes _, build_groups false _ (hdist.adjacent false)]
-  exact out_tail c _
+  exact quic_connection_exact_interleaved_adj maskFn H Pc info hl h32 L cr csel ch sh ca sa early sel hsel ho hsa hca kl0 p0 d0
+    itemsA hkl c hc hd0 hok htr hcar hkeyed itemsB hcarB hsend (hdist.adjacent false)
 
 /-- … with a conformant TLS 1.3 handshake (`ConfHs`): the parser hypothesis `PTrace` replaced by "the CRYPTO frames of the
     long-header packets are, in processing order, those of `hs`" (`ptrace_of_conformant`) -/
@@ -1046,14 +1077,14 @@ theorem quic_connection_exact_interleaved_conformant (hl : H.Lawful) (h32 : H.sh
       (chachaOf (trk0.runM (d0 :: itemsA.map (·.2.2))).core) 0 0
       (trk0.runM (d0 :: itemsA.map (·.2.2))).tc.app (trk0.runM (d0 :: itemsA.map (·.2.2))).ts.app
       (trk0.runM (d0 :: itemsA.map (·.2.2))).cc (trk0.runM (d0 :: itemsA.map (·.2.2))).sc (itemsB.map (·.2.2)))
-    (htimes : ((shortsOf (d0 :: itemsA.map (·.2.2)) ++ itemsB.map (·.2.2)).map fun d => (d.x.ts, d.x.srv)).Pairwise (· ≠ ·)) :
+    (hadj : DistinctAdjacent false ((shortsOf (d0 :: itemsA.map (·.2.2)) ++ itemsB.map (·.2.2)).map fun d => inDg d.x)) :
     let QM := quicMachine maskFn H Pc info
     let c1 := mixFeedAll QM c ((kl0, p0, d0) :: itemsA)
     (feedAll QM c1 itemsB).raised = none ∧
     QM.out false (feedAll QM c1 itemsB) = expectedOut c (shortsOf (d0 :: itemsA.map (·.2.2)) ++ itemsB.map (·.2.2)) :=
-  quic_connection_exact_interleaved maskFn H Pc info hl h32 L hs.ch.random hs.sh.cipherSuite ch sh ca sa early sel hsel ho hsa
+  quic_connection_exact_interleaved_adj maskFn H Pc info hl h32 L hs.ch.random hs.sh.cipherSuite ch sh ca sa early sel hsel ho hsa
     hca kl0 p0 d0 itemsA hkl c hc hd0 hok (by rw [hins]; exact ptrace_of_conformant hs hsok) hcar hkeyed itemsB hcarB hsend
-    htimes
+    hadj
 
 end Interleaved
 /-! ### 0-RTT -/
